@@ -430,7 +430,8 @@ def _expand_named_facts(dom, facts, rdf, depth=0):
         defs = rd.at(t, name)
         if not defs or any(d.kind != 'assign' for d in defs):
             continue
-        if isinstance(e, ast.Name) and len(defs) == 1 and isinstance(defs[0].value, (ast.BoolOp, ast.Compare, ast.UnaryOp)):
+        pure_read = isinstance(defs[0].value, ast.Subscript) and isinstance(defs[0].value.slice, ast.Constant) and isinstance(defs[0].value.value, ast.Name) if len(defs) == 1 else False
+        if isinstance(e, ast.Name) and len(defs) == 1 and (isinstance(defs[0].value, (ast.BoolOp, ast.Compare, ast.UnaryOp)) or pure_read):
             # (a) named condition
             if not _names_redefined_between(rd, defs[0], t):
                 extra += _expand_named_facts(dom, facts_of(defs[0].value, fa.polarity, fa.origin), rdf, depth + 1)
@@ -505,7 +506,18 @@ def guard_facts_at(dom, n, expr):
     out = guard_facts(dom, n)
     root = n.ast if isinstance(n.ast, ast.AST) else None
     if root is not None and expr is not None:
-        out = out + short_circuit_facts(root, expr)
+        sc = short_circuit_facts(root, expr)
+        rdf = getattr(dom, 'rd_factory', None)
+        if sc and rdf is not None:
+            # give the short-circuit facts an origin so that local names in them can be resolved at this node
+            class _O:
+                kind = 'branch'
+                attrs = {'test': n}
+            for fa in sc:
+                if fa.origin is None:
+                    fa.origin = _O()
+            sc = _expand_named_facts(dom, sc, rdf)
+        out = out + sc
     return out
 
 
